@@ -171,6 +171,9 @@ func (fe *fnEnv) classifyRoot(id *ast.Ident, seen map[types.Object]bool) string 
 		if fe.isParam(o) {
 			return "param"
 		}
+		if fe.decl.Recv != nil && len(fe.decl.Recv.List[0].Names) > 0 && fe.info.Defs[fe.decl.Recv.List[0].Names[0]] == o {
+			return "shared" // state reachable from a callee's receiver outlives the call
+		}
 		if seen[o] {
 			return "value"
 		}
